@@ -10,7 +10,7 @@ namespace T
 export EaselModel.Generated.Gencode (tables)
 end T
 namespace A
-export EaselModel.Generated.Alphabets (dna amino)
+export EaselModel.Generated.Alphabets (dna rna amino)
 end A
 
 /-- a genetic code object set from a table row (`esl_gencode_Set`) -/
